@@ -14,39 +14,67 @@
 (*   when the store's delete notifications reach the broker ("watch");                                *)
 (*   what happens between an admin delete and the delivery of its notification: nothing ("none"), or   *)
 (*     the still connected owner sends a SUBSCRIBE and its session is stored again ("sub").              *)
+(*   how fast the session store is: in Mode "slow" the store can fall behind - a put parks inside the     *)
+(*     store (armed at a connect, whose first store request is the one that parks, or at a SUBSCRIBE),    *)
+(*     at most one more store request (a SUBSCRIBE) queues up behind it, the connection ends and is torn    *)
+(*     down meanwhile, and only then the store catches up ("flush"); the device reconnects afterwards.       *)
+(*     (Requests queued behind a parked put are handed over by goroutines of their own and can overtake      *)
+(*     each other: with one request queued the order is determined.  A connect while the store lags reads     *)
+(*     a stale copy; that is outside the property's text and not generated.)                                   *)
 (* `out` carries after every step what the contract says: the owner of the id and its               *)
 (* subscriptions (and the connections an admin delete must have disconnected).                        *)
 (* Before every connect the harness delivers all pending notifications (assumption of MqttSession).   *)
 EXTENDS MqttSession, Json, SequencesExt
 
 CONSTANTS MaxSteps,
-          Mode        \* "all": everything; "resume": plain reconnect chains of cleanSession=false connections (no takeover,
+          Mode        \* "burst": plain reconnect chains in which a connection also sends two SUBSCRIBE packets back to back (one
+                      \* write: the broker's read loop handles the second before anything else runs) - what a device does
+                      \* that re-subscribes its topics after a reconnect;
+                      \* "slow": plain reconnect chains (no takeover, no gates, no admin delete) with a store that falls behind;
+                      \* "all": everything; "resume": plain reconnect chains of cleanSession=false connections (no takeover,
                       \* no gates, no admin delete) - what a device that keeps its session does; "gap": the same chains, but
                       \* the device comes back while its previous connection's teardown is still parked in the Disconnect pipeline
-VARIABLES out, parked, will, gclean, k, wleft
+VARIABLES out, parked, will, gclean, k, wleft,
+          slow        \* "off" | "parked0" (a put is parked inside the store) | "parked1" (... and one store request waits behind it)
 
-gvars == <<svars, out, parked, will, gclean, k, wleft>>
+gvars == <<svars, out, parked, will, gclean, k, wleft, slow>>
 
 Exp == [cur |-> kcur, subs |-> SetToSeq(ksubs), kicked |-> SetToSeq({c \in ConnSet : kst[c] = "kicked"})]
 Emit(rec) == out' = ToJson([op |-> rec, exp |-> [cur |-> kcur', subs |-> SetToSeq(ksubs'),
                                                 kicked |-> SetToSeq({c \in ConnSet : kst'[c] = "kicked"})]])
 
 GInit == /\ SInit /\ out = ToJson([op |-> [a |-> "init"]]) /\ parked = [c \in ConnSet |-> "none"]
-         /\ will = [c \in ConnSet |-> FALSE] /\ gclean = [c \in ConnSet |-> FALSE] /\ k = 0 /\ wleft = 2
+         /\ will = [c \in ConnSet |-> FALSE] /\ gclean = [c \in ConnSet |-> FALSE] /\ k = 0 /\ wleft = 2 /\ slow = "off"
 
 Frozen == UNCHANGED <<ivars, ev>>
 
-GConnect == \E c \in ConnSet, clean \in BOOLEAN, w \in BOOLEAN :
+GConnect == \E c \in ConnSet, clean \in BOOLEAN, w \in BOOLEAN, sl \in BOOLEAN :
     /\ \A i \in 1..(Idx(c) - 1) : kst[Conns[i]] # "idle"
     /\ kdel => clean                                     \* after an admin delete only the clean case is determined
-    /\ Mode \in {"resume", "gap"} => (~clean /\ ~w /\ kcur = "none")
+    /\ Mode \in {"resume", "gap", "burst"} => (~clean /\ ~w /\ kcur = "none")
+    /\ Mode = "slow" => (~w /\ kcur = "none")
+    /\ slow = "off" /\ (sl => Mode = "slow")              \* the store has caught up when a client connects
     /\ KConnect(c, clean, ~clean /\ Resumable)
     /\ will' = [will EXCEPT ![c] = w] /\ gclean' = [gclean EXCEPT ![c] = clean]
-    /\ Emit([a |-> "connect", c |-> c, clean |-> clean, will |-> w])
+    /\ slow' = IF sl THEN "parked0" ELSE "off"
+    /\ Emit([a |-> "connect", c |-> c, clean |-> clean, will |-> w, slow |-> sl])
     /\ UNCHANGED <<parked, wleft>>
 
-GSub == \E c \in ConnSet, f \in FiltersS :
-    /\ KSubscribe(c, f) /\ Emit([a |-> "sub", c |-> c, f |-> f]) /\ UNCHANGED <<parked, will, gclean, wleft>>
+GSub == \E c \in ConnSet, f \in FiltersS, sl \in BOOLEAN :
+    /\ slow # "parked1"
+    /\ sl => (Mode = "slow" /\ slow = "off")
+    /\ slow' = IF sl THEN "parked0" ELSE IF slow = "parked0" THEN "parked1" ELSE slow
+    /\ KSubscribe(c, f) /\ Emit([a |-> "sub", c |-> c, f |-> f, slow |-> sl]) /\ UNCHANGED <<parked, will, gclean, wleft>>
+
+(* two SUBSCRIBE packets, one filter each, written back to back *)
+GSub2 == \E c \in ConnSet, f \in FiltersS, g \in FiltersS :
+    /\ Mode = "burst" /\ f # g /\ slow = "off" /\ kcur = c
+    /\ ksubs' = ksubs \cup {f, g} /\ UNCHANGED <<kcur, kex, kclean, kst, kdel>>
+    /\ Emit([a |-> "sub2", c |-> c, f |-> f, g |-> g]) /\ UNCHANGED <<parked, will, gclean, wleft, slow>>
+
+(* the store catches up: the parked put returns and what queued up behind it is written *)
+GFlush == /\ slow # "off" /\ slow' = "off"
+          /\ UNCHANGED <<kvars, parked, will, gclean, wleft>> /\ Emit([a |-> "flush"])
 
 GDrop == \E c \in ConnSet, mode \in {"eof", "disc", "poke"}, gate \in {"none", "will", "del", "disc"} :
     /\ parked[c] = "none"
@@ -55,27 +83,28 @@ GDrop == \E c \in ConnSet, mode \in {"eof", "disc", "poke"}, gate \in {"none", "
     /\ gate = "del" => gclean[c]
     /\ gate = "disc" => kst[c] = "up"
     /\ gate # "none" => \A x \in ConnSet : parked[x] = "none"        \* one parked teardown at a time
-    /\ Mode = "resume" => (gate = "none" /\ mode # "poke")
+    /\ Mode \in {"resume", "slow", "burst"} => (gate = "none" /\ mode # "poke")
+    /\ slow # "off" => gate = "none"
     /\ Mode = "gap" => (gate \in {"none", "disc"} /\ mode # "poke")
     /\ KDrop(c)
     /\ parked' = [parked EXCEPT ![c] = gate]
     /\ Emit([a |-> "drop", c |-> c, mode |-> mode, gate |-> gate])
-    /\ UNCHANGED <<will, gclean, wleft>>
+    /\ UNCHANGED <<will, gclean, wleft, slow>>
 
 GResume == \E c \in ConnSet :
     /\ parked[c] # "none" /\ parked' = [parked EXCEPT ![c] = "none"]
-    /\ UNCHANGED <<kvars, will, gclean, wleft>> /\ Emit([a |-> "resume", c |-> c])
+    /\ UNCHANGED <<kvars, will, gclean, wleft, slow>> /\ Emit([a |-> "resume", c |-> c])
 
-GWatch == /\ wleft > 0 /\ wleft' = wleft - 1
+GWatch == /\ wleft > 0 /\ wleft' = wleft - 1 /\ slow = "off" /\ UNCHANGED slow
           /\ \A c \in ConnSet : parked[c] # "del"      \* (a teardown parked inside delete has not produced its notification yet)
           /\ UNCHANGED <<kvars, parked, will, gclean>> /\ Emit([a |-> "watch"])
 
-GAdmin == /\ Mode = "all" /\ kcur # "none" /\ kex /\ ~kdel /\ \A c \in ConnSet : parked[c] = "none"
+GAdmin == /\ Mode = "all" /\ UNCHANGED slow /\ kcur # "none" /\ kex /\ ~kdel /\ \A c \in ConnSet : parked[c] = "none"
           /\ KAdminDelete
           /\ \E race \in {"none", "sub"}, f \in FiltersS : Emit([a |-> "admin", race |-> race, c |-> kcur, f |-> f])
           /\ UNCHANGED <<parked, will, gclean, wleft>>
 
 GNext == /\ k < MaxSteps /\ k' = k + 1 /\ Frozen
-         /\ (GConnect \/ GSub \/ GDrop \/ GResume \/ GWatch \/ GAdmin)
+         /\ (GConnect \/ GSub \/ GSub2 \/ GDrop \/ GResume \/ GWatch \/ GAdmin \/ GFlush)
 GSpec == GInit /\ [][GNext]_gvars
 =============================================================================
